@@ -62,7 +62,8 @@ Canon(c) == CASE c.t = "int" -> ToString(c.n)
 \* "dict_rows": the dict given as rows only (no <sheet>_header keys): the columns are then the keys of the rows, in order of first
 \* appearance - the content is the same but the column ORDER of sparse sheets is not part of it
 Formats == {"md", "csv", "xls", "xlsx", "xlsm", "dict", "dict_rows"}
-Deliveries == {"path", "bytes", "bytesio", "file", "str"}
+\* "bytesio_end": a stream the caller has just written (position at the end);  "bytesio_twice": a stream already converted once
+Deliveries == {"path", "bytes", "bytesio", "bytesio_end", "bytesio_twice", "file", "str"}
 \* which combinations exist: text formats can be passed as str; binary ones cannot; a dict is only itself
 ValidDelivery(f, d) == CASE f \in {"dict", "dict_rows"} -> d = "str"      \* placeholder delivery for the dict itself
                          [] f \in {"md", "csv"} -> TRUE
